@@ -17,10 +17,10 @@ MANIFEST = dict(
     note='partial: A-epoll-del (no event is fetched for a descriptor after EPOLL_CTL_DEL returned) and one-poller-per-cache are assumptions; the residual window of a Release racing the close of its own connection is outside the model (stale = the close has completed). The defect fixed by 1c26766 is kept as a Lean witness.',
     technique='Lean 4 inductive invariant over a slot-reuse interleaving model + step-by-step trace conformance with the real poller code', design='§6 C10')
 
-def shard(binary, wd, seed, seqs, nops):
+def shard(binary, wd, seed, seqs, nops, hazard=False):
     os.makedirs(wd, exist_ok=True)
     ops, impl, model = (os.path.join(wd, n) for n in ('ops', 'impl', 'model'))
-    p = subprocess.run([binary, '-seed', str(seed), '-seqs', str(seqs), '-ops', str(nops), '-ops-out', ops, '-impl-out', impl], timeout=1800)
+    p = subprocess.run([binary, '-seed', str(seed), '-seqs', str(seqs), '-ops', str(nops), '-ops-out', ops, '-impl-out', impl] + (['-hazard'] if hazard else []), timeout=1800)
     with open(ops) as i, open(model, 'w') as o:
         subprocess.run([common.DRIVER, 'opcache'], stdin=i, stdout=o, check=True, timeout=1800)
     return analyse(wd, p.returncode)
@@ -65,7 +65,12 @@ def run(rep):
         rep.violation('harness does not build against /repo:\n' + out[-2000:], ['# go build failed'], no_input=True); return
     shards, seqs, nops = (16, 1500, 120) if rep.tier == 'thorough' else (8, 120, 80)
     with ThreadPoolExecutor(max_workers=16) as ex:
-        results = list(ex.map(lambda i: shard(binary, os.path.join(wd, 's%d' % i), rep.seed * 1000 + i, seqs, nops), range(shards)))
+        results = list(ex.map(lambda i: shard(binary, os.path.join(wd, 's%d' % i), rep.seed * 1000 + i, seqs, nops, hazard=(i % 4 == 3)), range(shards)))
+    if any(r['problems'] for r in results) and not any(p[2] == 'impl-violates-spec' for r in results for p in r['problems']):
+        # model and implementation differ but no bystander was disturbed yet: directed search for a failing input
+        with ThreadPoolExecutor(max_workers=16) as ex:
+            results += list(ex.map(lambda i: shard(binary, os.path.join(wd, 'h%d' % i), rep.seed * 1000 + 500 + i, 400, 40, hazard=True), range(16)))
+        rep.cov['directed_search'] = 'model/implementation disagreement: 16 x 400 sequences with the slot-reuse prelude'
     import glob
     for f in sorted(glob.glob(os.path.join(common.VERIF, 'corpus', PROP, '*.ops'))):
         cw = os.path.join(wd, 'corpus_' + os.path.basename(f)); os.makedirs(cw, exist_ok=True)
